@@ -21,6 +21,15 @@ fn gen_item_bytes(c: &mut Choices, valid_only: bool) -> Vec<u8> {
             wire::solve_size(&mut d, 300, c);
         }
         wire::valid_bytes(&d)
+    } else if c.chance(20) {
+        // a complete item that is not a record at all
+        match c.below(5) {
+            0 => vec![c.u8() & 0x7f],
+            1 => vec![0x80],
+            2 => vec![0xc0],
+            3 => crate::refmodel::rlp::encode_str(&c.bytes(3)),
+            _ => crate::refmodel::rlp::encode(&crate::gen::wire::gen_item(c, 2)),
+        }
     } else {
         let w = crate::props::c02::gen_struct_case(c, None);
         if complete_item(&w.bytes) {
@@ -106,7 +115,31 @@ impl Property for C13 {
                 Case::Stream(StreamCase { items: vec![item.clone()], suffix: vec![(sl % 251) as u8; sl], as_list: false, label: "suffix-sweep".into() })
             })
         });
-        Box::new(it)
+        // every 1-byte complete item (0x00..=0x7f, 0x80, 0xc0) and a few other tiny items that are not
+        // records at all, alone / followed by one byte / by a record / in a stream and a list
+        let mut tiny: Vec<Vec<u8>> = (0u8..=0x80).map(|b| vec![b]).collect();
+        tiny.push(vec![0xc0]);
+        tiny.push(vec![0x81, 0x80]);
+        tiny.push(vec![0x82, 1, 2]);
+        tiny.push(vec![0xc1, 0x01]);
+        tiny.push(vec![0xc2, 0x80, 0x80]);
+        tiny.push(vec![0xb8, 0x38].into_iter().chain(std::iter::repeat(7u8).take(0x38)).collect());
+        let rec = {
+            let e = det_entropy("c13/tiny", 0, 1400);
+            gen_item_bytes(&mut Choices::new(&e), true)
+        };
+        let tiny_cases = tiny.into_iter().flat_map(move |t| {
+            let rec = rec.clone();
+            let sufs: Vec<Vec<u8>> = vec![vec![], vec![0x00], vec![0xff], rec.clone(), vec![0u8; 400]];
+            let mut v: Vec<Case> = sufs
+                .into_iter()
+                .map(|s| Case::Stream(StreamCase { items: vec![t.clone()], suffix: s, as_list: false, label: "tiny-item".into() }))
+                .collect();
+            v.push(Case::Stream(StreamCase { items: vec![rec.clone(), t.clone()], suffix: vec![1, 2, 3], as_list: false, label: "tiny-item".into() }));
+            v.push(Case::Stream(StreamCase { items: vec![rec.clone(), t.clone(), rec.clone()], suffix: vec![], as_list: true, label: "tiny-item".into() }));
+            v.into_iter()
+        });
+        Box::new(it.chain(tiny_cases))
     }
     fn fuzz_plans(&self) -> Vec<(&'static str, u64)> {
         vec![("wire_raw", 30000), ("wire_struct", 10000)]
